@@ -39,14 +39,40 @@ def r1_indexer(ctx, prog):
     r = Rule("C11.R1", "one fresh string indexer per locale, consumed into that locale's table and count",
              "the index stored in a literal is a position in the table of the locale being processed; an indexer reused across "
              "locales, or a table/count taken from another indexer, makes indices point at other strings - only when a later "
-             "locale repeats a string of an earlier one, or has a different number of strings", floor=4)
+             "locale repeats a string of an earlier one, or has a different number of strings", floor=3)
     b = prog.body("parse_locales::check_locales_inner")
     if b is None:
         r.missing("check_locales_inner")
         return r
-    users = [(c, "make_builder_keys", 2) for c in M.call_blocks(b, r"locale::Locale::make_builder_keys$")] + \
-            [(c, "merge", 5) for c in M.call_blocks(b, r"locale::Locale::merge$")]
-    if len(users) != 2:
+    # decided by evaluation (rules/checklocales.py: check_locales_inner interpreted with the real StringIndexer under it): each
+    # locale's table is the distinct texts that locale's own merge pushed, in order, and its count is the table's length -
+    # whatever other locales contain and in whatever order they come
+    import itertools
+    from rules import checklocales, absint as _absint
+    evaluated = True
+    nrows = 0
+    for order in itertools.permutations(("fr", "de", "fr-CA")):
+        res, got = checklocales.string_tables(ctx, order)
+        if isinstance(res, str):
+            evaluated = False
+            r.inst("check_locales_inner#tables", "evaluation not available (%s): the MIR clauses below decide alone" % res[:160])
+            break
+        nrows += 1
+        want = checklocales.expected_tables(order)
+        badl = [n for n in want if got.get(n) != want[n]]
+        if badl:
+            n = badl[0]
+            r.viol("R1:check_locales_inner#tables", "locales [en, %s] (several of them share texts): the table of `%s` becomes %s with count %s; its own texts are %s - an index handed out by its merge then points at another text or past the end"
+                   % (", ".join(order), n, got.get(n, ("?",))[0], _absint.fmt(got[n][1]) if n in got else "?", want[n][0]), file=b.file, line=b.line)
+            break
+    else:
+        r.inst("check_locales_inner#tables", "%d locale orders: every locale's table = the distinct texts of that locale in the order its merge pushed them, count = its length" % nrows)
+    if evaluated:
+        users = []
+    else:
+        users = [(c, "make_builder_keys", 2) for c in M.call_blocks(b, r"locale::Locale::make_builder_keys$")] + \
+                [(c, "merge", 5) for c in M.call_blocks(b, r"locale::Locale::merge$")]
+    if not evaluated and len(users) != 2:
         r.viol("R1:check_locales_inner#users", "expected make_builder_keys (default locale) and merge (other locales), found %d indexer users" % len(users), file=b.file, line=b.line)
     gets = M.call_blocks(b, r"parse_locales::StringIndexer::get_strings$")
     for (c, what, argi) in users:
